@@ -163,5 +163,5 @@ def render_step(st):
 
 def render_act(a):
     if a["k"] == "obs":
-        return "obs " + render_step(a["step"])
+        return "obs " + render_step(a["step"]) + (f" !alloc-fail@{a['fail_alloc']}" if a.get("fail_alloc") is not None else "")
     return f"{a['k']}({a['v']})"
